@@ -5,7 +5,7 @@ from common import sh2
 
 LEVEL = "proof"
 # further theorem files (HEVC); each is rebuilt, re-checked and axiom-audited like C15Theorems.v
-EXTRA_THEOREM_FILES = ["C15HevcTheorems.v", "C15HevcSliceTheorems.v", "C15HevcConfTheorems.v"]
+EXTRA_THEOREM_FILES = ["C15HevcTheorems.v", "C15HevcSliceTheorems.v", "C15HevcConfTheorems.v", "C15InitTheorems.v"]
 MANIFEST = {
     "technique": "Coq proof (parser model applied to an independent serialiser of the standard's syntax) + differential "
                  "correspondence: the extracted serialiser generates NAL units / configuration records from random field values, "
@@ -30,10 +30,18 @@ MANIFEST = {
                   "long-term entries, NumPicTotalCurr, ref_pic_lists_modification, pred_weight_table, entry points, header "
                   "extension, byte_alignment; arbitrary maps incl. pps id != sps id; Size = bytes of the escaped NAL unit that "
                   "hold the header), C15_hevc_confrec_create / _encode / _roundtrip and C15_hevc_codec_string. "
+                  "History independence: the slice theorems hold for ARBITRARY spsmap / ppsmap, and C15_avc_slice_maps_only / "
+                  "C15_hevc_slice_maps_only state that the parsers' result is a function of the contents of the two maps at the "
+                  "call only (a parsed PPS holds no reference to an SPS in the model); the correspondence and the search replay "
+                  "HISTORIES on the real API (ParseSPS / ParsePPS against the map of the moment / replace an SPS or PPS under the "
+                  "same id / delete / fresh maps / slice parsed against other maps than its PPS was) with the expected values taken "
+                  "from the maps as they are at the slice call. C15_avc_init / C15_hevc_init: sample descriptions. "
                   "EXPLORED only (correspondence + search on generated and captured inputs, no theorem): mutated / truncated NAL "
                   "units and records (model = code on the outcome class and values), the EBSP-reader instance of the models. "
-                  "NOT modelled: the HEVC PPS multilayer and 3D extensions, the VPS parser, mp4 sample-entry construction "
-                  "(mp4/initsegment.go) - for them the property is not decided by this check.",
+                  "Sample descriptions (mp4 SetAVCDescriptor / SetHEVCDescriptor: tkhd and sample-entry width/height, avcC / hvcC) are "
+                  "modelled, tied by correspondence and composed from the theorems above (C15InitTheorems.v). "
+                  "NOT modelled: the HEVC PPS multilayer and 3D extensions (parseMultilayerExtension with the colour mapping "
+                  "octants, parse3dExtension) - for NAL units that carry them the property is not decided by this check.",
     "level_note": "Trusted: Coq kernel, extraction, OCaml/Go glue; the hand-written serialisers and expected values of C15Spec.v, "
                   "C15AvcConfSpec.v, C15HevcSpec.v, C15HevcConfSpec.v (my transcription of the syntax tables of ISO/IEC 14496-10 "
                   "7.3.2-7.3.3, 23008-2 7.3 / E.2 and 14496-15 5.3.3.1.2 / 8.3.3.1.2 / E.3; cross-checked on every run against the "
@@ -72,7 +80,7 @@ def run(ctx):
         "HEVC model: coq/c15/C15HevcModel.v, C15HevcConfModel.v — hand transcription of hevc/sps.go, hevc/pps.go, hevc/slice.go, "
         "hevc/hevcdecoderconfigurationrecord.go (Create/Size/Encode; the decoder is the C16 model C16ConfRecModel.v), hevc/mime.go; "
         "NOT modelled: the PPS multilayer and 3D extensions (parseMultilayerExtension with the colour mapping octants, "
-        "parse3dExtension) - such NAL units are outside the correspondence; the VPS parser",
+        "parse3dExtension) - such NAL units are outside the correspondence",
     ]
     ctx.assumptions += [
         "ue(v) values are below 2^32-1 and se(v) values within int32 (the standard's ranges); beyond that the Go reader wraps at 64 bits",
@@ -88,7 +96,7 @@ def run(ctx):
     d = os.path.join(common.BUILD, "c15")
     os.makedirs(d, exist_ok=True)
     # generation by the model side
-    n = ctx.n(2500, 40000)
+    n = ctx.n(2200, 40000)
     rc, gen, e = sh2("ulimit -s unlimited 2>/dev/null; exec '%s'" % model,
                      stdin=("GEN\t%d\t%d\n" % (ctx.seed, n)).encode(), timeout=3000)
     if rc != 0:
@@ -102,7 +110,8 @@ def run(ctx):
     kinds = {}
     for l in gl:
         p = l.split("\t")
-        k = p[0] + ("" if p[5] != "-" else "-mutated") + ("" if p[4] == "1" or p[5] == "-" else "-outside-guards")
+        k = p[0] + ("" if p[5] != "-" else ("-history-must-be-rejected" if p[1].endswith("n") else "-mutated")) \
+            + ("" if p[4] == "1" or p[5] == "-" else "-outside-guards")
         kinds[k] = kinds.get(k, 0) + 1
     ctx.notes["generated"] = {"cases": len(gl), "by_kind": kinds, "info": info}
     ctx.log("generated %d cases %s" % (len(gl), kinds))
@@ -157,7 +166,9 @@ def run(ctx):
                        "syntax branch drawn at random; ue values at powers of two and at the range ends), one in three also mutated "
                        "(truncation / bit flip / byte substitution, screened by the model for huge decoded counts) + the captured parameter "
                        "sets of the repository's test data; distinct = distinct NAL units; corr compares Go with the EBSP-reader model, the "
-                       "bit-reader model and the expected values; search compares Go with the expected values" % n)
+                       "bit-reader model and the expected values; search compares Go with the expected values; slice cases are histories of "
+                       "API calls (7 shapes incl. SPS/PPS replaced under the same id after the PPS was parsed, fresh maps, deletions; "
+                       "2 shapes where the slice must be rejected)" % n)
 
 
 def replay(ctx, path):
